@@ -194,13 +194,13 @@ fn helpers(check: &Check, rng: &mut Rng) {
     let mut la_ref: BTreeSet<Multiaddr> = BTreeSet::new();
     let mut ea_ref: Vec<Multiaddr> = vec![];
     let id = ListenerId::next();
-    let universe = rng.range(3, 30);
+    let universe = if rng.bool() { rng.range(3, 12) } else { rng.range(22, 45) };
     let mut hist: Vec<String> = vec![];
     let mut sig = Sig::new().u64(universe);
-    let steps = rng.range(10, 120);
+    let steps = rng.range(10, 160);
     for _ in 0..steps {
         let a = mem(rng.below(universe));
-        let k = rng.usize(4);
+        let k = rng.weighted(&[2, 2, 5, 1]);
         sig.push_u64(k as u64);
         hist.push(format!("{}({a})", ["NewListenAddr", "ExpiredListenAddr", "ExternalAddrConfirmed", "ExternalAddrExpired"][k]));
         match k {
